@@ -81,6 +81,8 @@ class World:
         self.item_cache, self.const_cache = {}, {}
         self.switch_cache = {}
         self.key_cache, self.zcache = {}, {}
+        self.zst_cache, self.term_cache = {}, {}
+        self._derived = None
         self._impl = None
         self._pairs = None
         self._src = {}
@@ -165,10 +167,12 @@ class World:
         return self._pairs
 
     def is_derived(self, ty, trait):
-        self.impl_index()
-        for (tb, trb, d, _) in self.impl_spans.values():
-            if tb == ty and trb == trait: return d
-        return None
+        if self._derived is None:
+            self.impl_index()
+            self._derived = {}
+            for (tb, trb, d, _) in self.impl_spans.values():
+                self._derived.setdefault((tb, trb), d)
+        return self._derived.get((ty, trait))
 
     def trait_default(self, trait, meth):
         k = (trait, meth)
